@@ -1,7 +1,7 @@
 (* C01 — serialise -> parse round trip (Stage A of DESIGN 3.3: token level; the tokenizer enters as the instance-checked
    lexer contract "handler calls on render l = chunk l").  Statements only; proofs in Proofs/RoundTripProofs.v. *)
 From AHP Require Import Model.Base Model.Str Model.Attr Model.Dom Model.Serial Model.Parser Model.RoundTrip Model.Search Model.Index Gen.Tables
-     Proofs.DomProofs Proofs.ParserProofs Proofs.RoundTripProofs Proofs.CloneProofs Proofs.IndexedParserProofs Proofs.FixPointProofs.
+     Proofs.DomProofs Proofs.ParserProofs Proofs.RoundTripProofs Proofs.CloneProofs Proofs.IndexedParserProofs Proofs.FixPointProofs Proofs.ChunkedProofs.
 
 (* serialisation is exactly the rendering of the tree's token list, for every tree *)
 Theorem C01_render_factor : forall t, outer_html t = render (toks_of t).
@@ -37,6 +37,39 @@ Proof. exact reattrs_faithful. Qed.
 Theorem C01_parsed_trees_qualify : forall cls ts1 ts2 s root, Forall tok_attrs_ok ts1 -> Forall tok_attrs_ok ts2 ->
   feed cls ts1 ts2 = POk s -> tree_of s = Some root -> GoodTree root.
 Proof. exact parsed_good_tree. Qed.
+
+(* the same fixed point on the stream the tokenizer really delivers for the serialised tree: every text run split into data pieces,
+   &name; and &#n; references, comments and lone "<" / "&" (chunk), script / style content as one piece - for every tree whose text
+   runs the chunker reproduces in full (complete: no comment opener left unclosed, no bare "&" at the very end of a run) *)
+Theorem C01_fixed_point_real_stream : forall t, InDom t -> GoodTree t -> CompleteT t ->
+  exists s root, prun PPlain pinit (chunk (toks_of t) "") = POk s /\ tree_of s = Some root /\ pstk s = [] /\ outer_html root = outer_html t.
+Proof. exact roundtrip_fixed_point_chunked. Qed.
+(* the pieces of a text run are always non-empty data, references or comments, whatever the text *)
+Theorem C01_chunks_are_text_pieces : forall fuel s data, Forall textlike (chunk_text fuel s data).
+Proof. exact chunk_text_textlike. Qed.
+(* every run without "<" and "&" is complete (it is a single data piece) *)
+Theorem C01_plain_runs_complete : forall p, plain p = true -> complete p.
+Proof. exact plain_complete. Qed.
+(* non-vacuity: a parsed tree with references, a comment, lone "<" and "&", a void element, script content containing "<" and a
+   class value that is normalised meets all three hypotheses; its real stream is listed *)
+Definition C01_ex_ts := [TStart "div" [("id", Some "a"); ("class", Some "k  j")] false; TData "x "; TEntity "amp"; TData " y < 3 & z"; TComment " c ";
+                     TStart "br" [] true; TStart "script" [] false; TData "if (a < b) {}"; TEnd "script"; TChar "x41"; TEnd "div"].
+Example C01_ex_real_stream : exists s t, feed PPlain C01_ex_ts [] = POk s /\ tree_of s = Some t /\ InDom t /\ GoodTree t /\ CompleteT t
+   /\ chunk (toks_of t) "" = [TStart "div" [("id", Some "a"); ("class", Some "k j")] false; TData "x "; TEntity "amp"; TData " y "; TData "<"; TData " 3 "; TData "&"; TData " z"; TComment " c ";
+                     TStart "br" [] true; TStart "script" [] false; TData "if (a < b) {}"; TEnd "script"; TChar "x41"; TEnd "div"].
+Proof.
+  destruct (feed PPlain C01_ex_ts []) as [s|] eqn:E; [|vm_compute in E; discriminate].
+  destruct (tree_of s) as [t|] eqn:Et.
+  2:{ vm_compute in E. inversion E; subst. vm_compute in Et. discriminate. }
+  exists s, t. split; [reflexivity|]. split; [exact Et|].
+  assert (Hg : GoodTree t).
+  { apply (parsed_good_tree PPlain C01_ex_ts [] s t); auto; unfold C01_ex_ts; repeat constructor; vm_compute; auto. }
+  vm_compute in E. inversion E; subst. vm_compute in Et. inversion Et; subst. clear E Et.
+  split; [|split; [exact Hg|split]].
+  - repeat (constructor; simpl; auto); intros; try discriminate; auto.
+  - vm_compute. tauto.
+  - vm_compute. reflexivity.
+Qed.
 
 (* non-vacuity and the whole chain on a concrete tree with quoted, value-less, boolean, class and style attributes, references,
    a comment, a void element and nesting: parse(chunk(tokens)) re-serialises to the identical string *)
